@@ -184,6 +184,15 @@ func runCase[T any](in input) childResult {
 			}
 		}
 	}
+	// transparency of the Watcher property: the wrapper is a dials.Watcher exactly
+	// when the wrapped source is (Dials and Blank decide by type assertion)
+	{
+		_, innerWatches := innerSrc.(dials.Watcher)
+		_, wrapWatches := wrapped.(dials.Watcher)
+		if innerWatches != wrapWatches {
+			res.Direct = append(res.Direct, fmt.Sprintf("inner source is a Watcher: %v, its transforming wrapper: %v", innerWatches, wrapWatches))
+		}
+	}
 	if in.Prime != 0 {
 		// transparency: a wrapper that has served another config type behaves
 		// for this one exactly as a fresh wrapper does
